@@ -186,7 +186,12 @@ def final(only):
             meta["final_on_repo"] = {"error": "patch no longer applies: " + out.strip()[:200]}
         else:
             try:
-                fin = {c: run_check(c, "/repo") for c in checks}
+                # the check of the property the change breaks; the other detecting checks only if that one misses
+                fin = {}
+                for c in checks:
+                    fin[c] = run_check(c, "/repo")
+                    if fin[c]["exit"] == 1 and fin[c]["violations"] > 0:
+                        break
             finally:
                 sh("git checkout -- . && git clean -fdq", cwd="/repo")
             meta["final_on_repo"] = {"head": sh("git log --format=%h -1", cwd="/repo")[1].strip(), "procedure": "git -C /repo apply patch.diff; ./vcheck <ID> quick; git -C /repo checkout -- .", "checks": fin,
